@@ -120,6 +120,18 @@ class Session:
     def start(self, timeout=10.0):
         return bool(self.wait(lambda: self.prompts() >= 1, timeout))
 
+    def kill(self):
+        try:
+            os.kill(self.pid, signal.SIGKILL)
+            os.waitpid(self.pid, 0)
+        except OSError:
+            pass
+        self.exited = -9
+        try:
+            os.close(self.fd)
+        except OSError:
+            pass
+
     def close(self):
         try:
             if self.alive():
